@@ -2139,8 +2139,10 @@ class Fn(
         **kwargs,
     ) -> Tr[dict[str, Any], R]:
         handler_stack.append(Simulate(jnp.array(0.0), {}, self))
-        r = self.source.value(*args, **kwargs)
-        handler = handler_stack.pop()
+        try:
+            r = self.source.value(*args, **kwargs)
+        finally:
+            handler = handler_stack.pop()
         assert isinstance(handler, Simulate)
         score, trace_map = handler.score, handler.trace_map
         return Tr(self, (args, kwargs), trace_map, r, score)
@@ -2156,8 +2158,10 @@ class Fn(
             return tr, jnp.array(0.0)
         else:
             handler_stack.append(Generate(x, jnp.array(0.0), jnp.array(0.0), {}, self))
-            r = self.source.value(*args, **kwargs)
-            handler = handler_stack.pop()
+            try:
+                r = self.source.value(*args, **kwargs)
+            finally:
+                handler = handler_stack.pop()
             assert isinstance(handler, Generate)
             score, weight, trace_map = handler.score, handler.weight, handler.trace_map
             return Tr(self, (args, kwargs), trace_map, r, score), weight
@@ -2169,8 +2173,10 @@ class Fn(
         **kwargs,
     ) -> tuple[Density, R]:
         handler_stack.append(Assess(x, jnp.array(0.0), set(), self))
-        r = self.source.value(*args, **kwargs)
-        handler = handler_stack.pop()
+        try:
+            r = self.source.value(*args, **kwargs)
+        finally:
+            handler = handler_stack.pop()
         assert isinstance(handler, Assess)
         logp = handler.logp
         return logp, r
@@ -2186,8 +2192,10 @@ class Fn(
         handler_stack.append(
             Update(tr, x_, {}, {}, jnp.array(0.0), jnp.array(0.0), self)
         )
-        r = self.source.value(*args, **kwargs)
-        handler = handler_stack.pop()
+        try:
+            r = self.source.value(*args, **kwargs)
+        finally:
+            handler = handler_stack.pop()
         assert isinstance(handler, Update)
         trace_map, score, w, discard = (
             handler.trace_map,
@@ -2207,8 +2215,10 @@ class Fn(
         handler_stack.append(
             Regenerate(tr, s, {}, {}, jnp.array(0.0), jnp.array(0.0), self)
         )
-        r = self.source.value(*args, **kwargs)
-        handler = handler_stack.pop()
+        try:
+            r = self.source.value(*args, **kwargs)
+        finally:
+            handler = handler_stack.pop()
         assert isinstance(handler, Regenerate)
         trace_map, score, w, discard = (
             handler.trace_map,
